@@ -32,6 +32,7 @@ import (
 	authkeeper "github.com/cosmos/cosmos-sdk/x/auth/keeper"
 	authtx "github.com/cosmos/cosmos-sdk/x/auth/tx"
 	authtypes "github.com/cosmos/cosmos-sdk/x/auth/types"
+	"github.com/cosmos/cosmos-sdk/x/authz"
 	"github.com/cosmos/cosmos-sdk/x/bank"
 	bankkeeper "github.com/cosmos/cosmos-sdk/x/bank/keeper"
 	banktypes "github.com/cosmos/cosmos-sdk/x/bank/types"
@@ -144,6 +145,7 @@ func makeCodec() (codec.Codec, codectypes.InterfaceRegistry, client.TxConfig) {
 	cdc := codec.NewProtoCodec(reg)
 	std.RegisterInterfaces(reg)
 	moduleBasics.RegisterInterfaces(reg)
+	authz.RegisterInterfaces(reg)
 	return cdc, reg, authtx.NewTxConfig(cdc, authtx.DefaultSignModes)
 }
 
